@@ -143,6 +143,7 @@ type vsConn struct {
 	inRead    int32
 	nRead     int64
 	nWritten  int64
+	nWCalls   int64 // number of Write calls the client made (C08: must be 0 before the first message is accepted)
 	failArmed int32
 	failAfter int32
 }
@@ -156,6 +157,7 @@ func (c *vsConn) Read(p []byte) (int, error) {
 }
 
 func (c *vsConn) Write(p []byte) (int, error) {
+	atomic.AddInt64(&c.nWCalls, 1)
 	if atomic.CompareAndSwapInt32(&c.failArmed, 1, 2) {
 		k := int(atomic.LoadInt32(&c.failAfter))
 		if k > len(p) {
@@ -304,10 +306,11 @@ type vsStep struct {
 	NoAck   bool            `json:"no_ack_handler"`
 	NoFirst bool            `json:"no_first"`
 	First   *struct {
-		Typ int    `json:"typ"`
-		ID  uint32 `json:"id"`
-		Ver int    `json:"ver"`
-		Pl  *vsPl  `json:"pl"`
+		Typ      int    `json:"typ"`
+		ID       uint32 `json:"id"`
+		Ver      int    `json:"ver"`
+		Pl       *vsPl  `json:"pl"`
+		LenField *int64 `json:"lenfield"` // claimed length field (default 10+len(payload))
 	} `json:"first"`
 	After    int    `json:"after"`
 	LenField *int64 `json:"lenfield"`
@@ -355,6 +358,7 @@ type vsSess struct {
 	hmu     sync.Mutex
 	handled []vsHandled
 	panics  []string
+	broken  string // set when the outbound stream could not be parsed: later steps are not attempted
 }
 
 func vsClassify(err error) string {
@@ -424,10 +428,8 @@ func (s *vsSess) peerSend(b []byte) vsObs {
 	return vsObs{"st": "blocked"} // the client is not reading (or the peer end is closed)
 }
 
-func (s *vsSess) connect(st vsStep) vsObs {
-	if s.c != nil {
-		return vsObs{"st": "already"}
-	}
+// newClient builds the Client from the option fields of a connect / new_client step
+func (s *vsSess) newClient(st vsStep) {
 	s.log = &vsLogger{}
 	opts := []ClientOpt{WithLogger(s.log)}
 	if st.Version == 1 {
@@ -452,6 +454,15 @@ func (s *vsSess) connect(st vsStep) vsObs {
 				s.c.handlers[MsgKeepAlive] = s.handler("typed", h)
 			}
 		}
+	}
+}
+
+func (s *vsSess) connect(st vsStep) vsObs {
+	if s.c != nil && s.connRes != nil {
+		return vsObs{"st": "already"}
+	}
+	if s.c == nil { // otherwise: a client made by new_client (callers may already be waiting on it)
+		s.newClient(st)
 	}
 	cli, peer := net.Pipe()
 	s.cc = &vsConn{Conn: cli}
@@ -488,7 +499,11 @@ func (s *vsSess) connect(st vsStep) vsObs {
 		}
 	}
 	b := pl.bytes()
-	return s.peerSend(vsBuildFrame(ver, typ, id, uint32(10+len(b)), b))
+	lf := uint32(10 + len(b))
+	if st.First != nil && st.First.LenField != nil {
+		lf = uint32(*st.First.LenField)
+	}
+	return s.peerSend(vsBuildFrame(ver, typ, id, lf, b))
 }
 
 func (s *vsSess) startCaller(st vsStep, shutdown bool) vsObs {
@@ -601,6 +616,7 @@ func (s *vsSess) expectFrame() vsObs {
 	defer s.peer.SetReadDeadline(time.Time{})
 	hb := make([]byte, 10)
 	if n, err := io.ReadFull(s.peer, hb); err != nil {
+		s.broken = "short-header"
 		return vsObs{"st": "short-header", "got": n}
 	}
 	h := vsParseHeader(hb)
@@ -608,6 +624,7 @@ func (s *vsSess) expectFrame() vsObs {
 	if h.LenField < 10 {
 		o["st"] = "bad-lenfield"
 		s.seen = append(s.seen, o)
+		s.broken = "bad-lenfield"
 		return o
 	}
 	pl := make([]byte, h.LenField-10)
@@ -615,6 +632,7 @@ func (s *vsSess) expectFrame() vsObs {
 		o["st"] = "short-payload"
 		o["got"] = n
 		s.seen = append(s.seen, o)
+		s.broken = "short-payload"
 		return o
 	}
 	o["len"] = len(pl)
@@ -635,7 +653,15 @@ func (s *vsSess) state() vsObs {
 	o["awaiting"] = len(s.c.awaiting)
 	s.c.awaitMu.Unlock()
 	o["ackq"] = len(s.c.ackQueue)
-	o["writing"] = atomic.LoadInt32(&s.cc.inWrite) == 1
+	if s.cc == nil { // a client that is not connected (new_client)
+		o["writing"] = false
+		o["wcalls"] = 0
+		o["nwritten"] = 0
+	} else {
+		o["writing"] = atomic.LoadInt32(&s.cc.inWrite) == 1
+		o["wcalls"] = atomic.LoadInt64(&s.cc.nWCalls)
+		o["nwritten"] = atomic.LoadInt64(&s.cc.nWritten)
+	}
 	o["closed"] = atomic.LoadUint32(&s.c.isClosed) == 1
 	select {
 	case <-s.c.ready:
@@ -663,6 +689,9 @@ func (s *vsSess) connectState() vsObs {
 }
 
 func (s *vsSess) step(st vsStep) vsObs {
+	if s.broken != "" {
+		return vsObs{"st": "broken", "res": "broken", "why": s.broken}
+	}
 	switch st.Op {
 	case "connect":
 		return s.connect(st)
@@ -763,8 +792,12 @@ func (s *vsSess) step(st vsStep) vsObs {
 		if s.c != nil {
 			return vsObs{"st": "already"}
 		}
-		s.log = &vsLogger{}
-		s.c = NewClient(WithLogger(s.log))
+		if st.Version == 0 && len(st.Hs) == 0 && st.Default == nil && !st.NoAck && st.Timeout == 0 {
+			s.log = &vsLogger{}
+			s.c = NewClient(WithLogger(s.log))
+		} else {
+			s.newClient(st) // same option fields as connect; a later connect step starts Connect on this client
+		}
 		return vsObs{"st": "ok"}
 	}
 	return vsObs{"st": "unknown-op"}
